@@ -89,13 +89,18 @@ func (ms *Modules) Parse(data, name string) error {
 		return err
 	}
 	for _, s := range ss {
-		n, err := buildASTWithTypeDict(s, ms.typeDict)
+		// Collect the typedefs of this (sub)module on the side and make
+		// them known only once it has been accepted: a rejected text
+		// must not leave typedefs behind.
+		types := newTypeDictionary()
+		n, err := buildASTWithTypeDict(s, types)
 		if err != nil {
 			return err
 		}
 		if err := ms.add(n); err != nil {
 			return err
 		}
+		ms.typeDict.addAll(types)
 	}
 	return nil
 }
